@@ -24,6 +24,7 @@ wf_all = partial(e2.rule_wellfounded, programs=("main", "nonhermitian"))
 tv_shipped = partial(e9.rule_translation, which=("main", "nonhermitian"))
 diag_solver_real = partial(e7b.rule_diagonal_solver, complex_energies=False)  # Hermitian H_0: real energies
 start_data_shipped = partial(e9.rule_start_data, all_programs=False)
+shared_check_memo = partial(e7b.rule_shared_eigenvalue_check, divisions=False)  # C10 / C11: only the memo of checked pairs
 memo_key_parsing = partial(e4.rule_memo_key, modules=("algorithm_parsing", "series"))
 memo_key_nof = partial(e4.rule_memo_key, modules=("number_ordered_form", "second_quantization"))  # C08 is about that arithmetic only
 
@@ -190,7 +191,7 @@ prop(
 prop(
     "C10", level="other", selftest=["series", "block_diagonalization", "algorithm_parsing", "linalg"],
     rules=[e4.rule_no_inplace_mutation, e4.rule_closure_state, e3.rule_memo_owner, e3.rule_typestate,
-           e7b.rule_shared_eigenvalue_check, e4.rule_loop_carried_state, e4.rule_memo_key, e9.rule_deletion_safe],
+           shared_check_memo, e4.rule_loop_carried_state, e4.rule_memo_key, e9.rule_deletion_safe],
     explanation=(
         "Structural cause of history independence: evals are pure and the memo is disciplined. Flow-sensitive "
         "freshness analysis over every function of the evaluation modules (in-place sinks: augmented assignment, item "
@@ -202,7 +203,7 @@ prop(
 
 prop(
     "C11", level="other", selftest=["series"],
-    rules=[e3.rule_typestate, e3.rule_memo_owner, e4.rule_closure_state, e7b.rule_shared_eigenvalue_check, e3.rule_exceptions_propagate],
+    rules=[e3.rule_typestate, e3.rule_memo_owner, e4.rule_closure_state, shared_check_memo, e3.rule_exceptions_propagate],
     explanation=(
         "Typestate of the in-flight marker on the control-flow graph (with exceptional edges) of the one function that "
         "owns it: from the store of PENDING every path to a normal or exceptional exit passes a store of the result or "
